@@ -888,8 +888,10 @@ std::string plan_to_text(const Plan& p) {
     for (auto& op : p.setup) o += op_to_text(op) + "\n";
   }
   for (size_t t = 0; t < p.tasks.size(); t++) {
-    if (p.tasks[t].tloc) snprintf(b, sizeof b, "task %zu tloc=%d\n", t, p.tasks[t].tloc); else snprintf(b, sizeof b, "task %zu\n", t);
-    o += b;
+    snprintf(b, sizeof b, "task %zu", t); o += b;
+    if (p.tasks[t].tloc) { snprintf(b, sizeof b, " tloc=%d", p.tasks[t].tloc); o += b; }
+    if (p.tasks[t].wave) { snprintf(b, sizeof b, " wave=%d", p.tasks[t].wave); o += b; }
+    o += "\n";
     for (auto& op : p.tasks[t].ops) o += op_to_text(op) + "\n";
   }
   for (auto& d : p.sched.directives) {
@@ -1031,6 +1033,8 @@ bool plan_from_text(const std::string& txt, Plan& p, std::string* err) {
       while ((int)p.tasks.size() <= section) p.tasks.push_back(TaskPlan());
       const char* tl = strstr(line.c_str(), "tloc=");
       if (tl) p.tasks[section].tloc = atoi(tl + 5);
+      const char* wv = strstr(line.c_str(), "wave=");
+      if (wv) p.tasks[section].wave = atoi(wv + 5);
     }
     else if (line.rfind("op ", 0) == 0) {
       Op o;
